@@ -34,8 +34,10 @@ func init() {
 			{ID: "R09j", Floor: 1, Doc: "(nil, nil) outcomes: a library function whose first result is a pointer, interface, slice or map returns nil together with a nil error only where that is its documented contract (table); a new such outcome is a nil dereference waiting in callers that test only the error", Run: ruleR09j},
 			{ID: "R09k", Floor: 1, Doc: "no division or remainder by a value that can be zero: every integer `/` or `%` in the library whose divisor is not a constant is behind a comparison that excludes zero (a width or count decoded from an index is attacker-chosen)", Run: ruleR09k},
 			{ID: "R09l", Floor: 2, Doc: "parser limits are used as configured: ApplyOptions sets MaxAllowedHeaderSize/MaxAllowedSectionSize only as initial defaults, before the caller's options run, and never rewrites them afterwards (a limit of 0 means 'nothing may be buffered', not 'use the default')", Run: ruleR09l},
+			{ID: "R09o", Floor: 10, Doc: "no NEW unchecked type assertion: a single-value `x.(T)` in the library panics when the dynamic type is another one (an index of the other codec, a reader without the method); the sites of the pinned tree are tabled (typeAssertBaseline), any other must use the comma-ok form", Run: ruleR09o},
 			{ID: "R09f", Floor: 1, Doc: "singleWidthIndex.Unmarshal: bucket bytes come from an exact-length read of dataLen with its error tested", Run: ruleR09f},
 			{ID: "R09m", Floor: 2, Doc: "the CARv2 payload is read through a reader bounded by the header-declared size that can never run negative or past the source (= R14a)", Run: ruleR14a},
+			{ID: "R09n", Floor: 1, Doc: "a reader that has released its pooled buffer does not touch it again: the field is cleared with the release (polling a drained reader once more must answer io.EOF, not panic in bufio) (= R01m)", Run: ruleR01m},
 		},
 	})
 }
@@ -792,6 +794,12 @@ func ruleR09f(c *Ctx, r *Report) {
 		return
 	}
 	dataLen := canon(chk[0].Common().Args[2])
+	if len(chk[0].Common().Args) > 3 {
+		if k, isK := constInt(chk[0].Common().Args[3]); !isK || k != 0 {
+			r.Viol(key, c.Pos(chk[0].Pos()), "the record count is derived from a length other than the number of bytes read into the bucket (an extra amount is added before dividing by the width): the bucket claims a record beyond its data, which lookups then read from whatever follows")
+			return
+		}
+	}
 	sameLen := func(v ssa.Value) bool {
 		return sameRoot(v, dataLen) || canon(v) == dataLen
 	}
@@ -1140,7 +1148,13 @@ func ruleR09k(c *Ctx, r *Report) {
 				return
 			}
 			// the divisor is a field whose every store in the repository puts a non-zero value there
-			if dfv != nil && (len(guards) == 0 || reach(fn, nil, edgeSet(guards))[b.Block()]) {
+			// (not for a struct allocated in this very function: its zero value is what the
+			// division sees when none of the stores ran — a scan of zero sections)
+			localObj := false
+			if dbase != nil {
+				_, localObj = canon(dbase).(*ssa.Alloc)
+			}
+			if dfv != nil && dbase != nil && !localObj && (len(guards) == 0 || reach(fn, nil, edgeSet(guards))[b.Block()]) {
 				allGood, nStores := true, 0
 				for _, g := range c.RepoFuncs() {
 					eachInstr(g, func(in2 ssa.Instruction) {
@@ -1301,4 +1315,82 @@ func ruleR09l(c *Ctx, r *Report) {
 		}
 		r.Check(bad == "", key, c.Pos(fn.Pos()), "default set once, before the options run", bad)
 	}
+}
+
+func uncheckedAsserts(c *Ctx) map[string]string {
+	out := map[string]string{}
+	for _, fn := range c.RepoFuncs() {
+		if !inLib(fn) {
+			continue
+		}
+		eachInstr(fn, func(in ssa.Instruction) {
+			ta, ok := in.(*ssa.TypeAssert)
+			if !ok || ta.CommaOk {
+				return
+			}
+			if !ta.Pos().IsValid() {
+				return
+			}
+			k := fnKey(rootFuncOf(fn)) + " -> " + assertedTypeKey(ta.AssertedType)
+			out[k] = c.Pos(ta.Pos())
+		})
+	}
+	return out
+}
+
+func ruleR09o(c *Ctx, r *Report) {
+	got := uncheckedAsserts(c)
+	var keys []string
+	for k := range got {
+		keys = append(keys, k)
+	}
+	sort.Strings(keys)
+	for _, k := range keys {
+		key := "unchecked-assert@" + k
+		if _, ok := typeAssertBaseline[k]; ok {
+			r.Exempt(key, got[k], "site of the pinned tree")
+			continue
+		}
+		if encl, rest, ok := strings.Cut(k, " -> "); ok && newFuncKeys(c)[encl] {
+			moved := false
+			for bk := range typeAssertBaseline {
+				be, br, _ := strings.Cut(bk, " -> ")
+				if br == rest && pkgOfKey(be) == pkgOfKey(encl) {
+					moved = true
+				}
+			}
+			if moved {
+				r.Exempt(key, got[k], "site of the pinned tree, moved into a new function")
+				continue
+			}
+		}
+		r.Viol(key, got[k], "single-value type assertion that the pinned tree does not have: if the value can be of another dynamic type (an index of the other format, a writer without the method) this panics instead of returning an error")
+	}
+	r.Count("unchecked type assertions in library packages", len(keys))
+}
+
+// assertedTypeKey names the asserted type; an interface is named by its method set (method names and
+// nameless signatures), so that giving an anonymous interface a name, or renaming a parameter, changes nothing.
+func assertedTypeKey(t types.Type) string {
+	q := func(p *types.Package) string { return shortPkg(p.Path()) }
+	it, ok := t.Underlying().(*types.Interface)
+	if !ok {
+		return types.TypeString(t, q)
+	}
+	strip := func(tu *types.Tuple) *types.Tuple {
+		var vs []*types.Var
+		for i := 0; i < tu.Len(); i++ {
+			vs = append(vs, types.NewParam(token.NoPos, nil, "", tu.At(i).Type()))
+		}
+		return types.NewTuple(vs...)
+	}
+	var ms []string
+	for i := 0; i < it.NumMethods(); i++ {
+		m := it.Method(i)
+		sig := m.Type().(*types.Signature)
+		ns := types.NewSignatureType(nil, nil, nil, strip(sig.Params()), strip(sig.Results()), sig.Variadic())
+		ms = append(ms, m.Name()+strings.TrimPrefix(types.TypeString(ns, q), "func"))
+	}
+	sort.Strings(ms)
+	return "interface{" + strings.Join(ms, "; ") + "}"
 }
